@@ -43,6 +43,17 @@ static std::vector<short> run(int emuA, int emuB, bool interfere, int block)
         if(b) opn2_rt_noteOff(b, 0, 96 - step);
         if(interfere && step == 9 && b) { opn2_close(b); b = 0; }
     }
+    // second phase: a long LFO-modulated note on A (strings, mod wheel up) while B, if still alive, keeps playing
+    if(interfere && !b) { b = mk(emuB, 5); opn2_rt_patchChange(b, 1, 48); opn2_rt_noteOn(b, 1, 70, 120); }
+    opn2_rt_patchChange(a, 1, 48);
+    opn2_rt_controllerChange(a, 1, 1, 127);
+    opn2_rt_noteOn(a, 1, 57, 120);
+    for(int k = 0; k < 3072; k += 64)
+    {
+        int n = opn2_generate(a, 2 * 64, buf);
+        out.insert(out.end(), buf, buf + (n > 0 ? n : 0));
+        if(b) { short bb[2 * 512]; opn2_generate(b, 2 * 64, bb); }
+    }
     if(b) opn2_close(b);
     opn2_close(a);
     return out;
